@@ -768,6 +768,9 @@ func prepareLALROracle(c *CheckCtx) error {
 			})
 		}
 	}
+	if err := writeValueDiscipline(cg); err != nil {
+		return err
+	}
 	g := &Grammar{Prods: cg.Prods, Start: start, Prec: doc.Prec}
 	tbl := buildLALR(g)
 	for _, cf := range tbl.Conflicts {
